@@ -15,7 +15,7 @@ theorem facts_match :
   decide
 
 def w1 : Proc := { params := [⟨0, .out⟩], body :=
-  .block none (.seq (.declare 3 (some 1)) (.seq (.block (some 1) (.seq (.declare 3 (some 2)) (.leave 1))) (.set 0 (.var 3)))) }
+    (.block none (.seq (.declare 3 (some 1)) (.seq (.block (some 1) (.seq (.declare 3 (some 2)) (.leave 1))) (.set 0 (.var 3))))) }
 def s0 : Session := { uvars := [(0, none)], sess := [], log := [] }
 
 theorem finding_leave_block_scope_leak :
